@@ -150,7 +150,7 @@ class Problem:
 
 
 def rand_spec(rng, quick):
-    problem = rng.choice(['size', 'size', 'epoch', 'two-epoch', 'mig', 'rec', 'rec-size'])
+    problem = rng.choice(['size', 'size', 'epoch', 'two-epoch', 'mig', 'rec', 'rec-size', 'alpha'])
     n = rng.randint(2, 4) if problem not in ('mig', 'rec', 'rec-size') else rng.randint(2, 3)
     nb = {'size': [(0.1, 10.0)], 'epoch': [(0.1, 10.0)], 'two-epoch': [(0.1, 10.0), (0.1, 10.0)],
           'mig': [(0.1, 10.0), (0.05, 4.0)], 'rec': [(0.05, 8.0)], 'rec-size': [(0.05, 8.0), (0.1, 10.0)],
@@ -164,8 +164,11 @@ def rand_spec(rng, quick):
     if problem in ('rec', 'rec-size'):
         loss = 'sq-2l'                                                     # no SFS for two loci
     if problem == 'alpha':
+        # a MODEL parameter is inferred (the shared state space of get_coal must not serve a model with another alpha, however
+        # close); alpha stays inside (1, 2) on every route, so no tight / outside-the-box variants here
         n = max(n, 3)
-        true = [min(max(t, 1.1), 1.9) for t in true]
+        nb = [(1.05, 1.95)]
+        true = [rng.choice([1.2, 1.4, 1.5, 1.7, 1.85])]
     if n == 2 and loss != 'sq-th' and problem in ('two-epoch', 'mig'):
         n = 3                                                              # one SFS bin cannot identify two parameters
     x0 = None if rng.random() < 0.4 else [round(rng.uniform(lo, hi), 3) for lo, hi in nb]
